@@ -492,6 +492,12 @@ func oracleC05(c *Case, res *Result) []Violation {
 	if st := findResult(res, "setup", 0); st != nil && len(st.Ops) == 0 {
 		tag += "/emptystore"
 	}
+	for _, ph := range c.Phases[:lastGroupIdx(c)] {
+		if ph.Kind == "restart" {
+			tag += "/coldcache" // the group starts with empty caches (racing cache fill, see C02/C04)
+			break
+		}
+	}
 	for _, o := range res.Obs {
 		for _, sp := range c.Stores {
 			if !sp.Unique {
